@@ -20,13 +20,15 @@ REPO = os.environ.get("FORSYS_REPO", "/repo")
 PID = "C15"
 RULE = ("states = (rasterised tissue or shipped image, one of 8 symmetries, padding, mirror_y, ne); "
         "non-trivial = at least two cells; classes = (image, symmetry, padding, mirror, ne)")
-BOUND = {"quick": "4 rasterised tissues (square, landscape, portrait, seeded) x 8 symmetries x 3 paddings x 2 mirror x ne in {3,6,9}, deviation bound 2 (full symmetry x mirror product)",
-         "thorough": "8 rasterised tissues + shipped skeleton, full product symmetry x padding x mirror, ne 3..9"}
+BOUND = {"quick": "5 rasterised tissues (square, landscape, portrait, seeded, short ridges) x 8 symmetries x 3 paddings x 2 mirror x ne 3..9, deviation bound 3; 3 shipped skeletons x 8 symmetries x 2 mirror x 2 paddings x ne {6,7}, deviation bound 2",
+         "thorough": "8 rasterised tissues, deviation bound 3 over symmetry x padding x mirror x ne 3..9; all 7 shipped skeletons, deviation bound 3"}
 ASSUMPTIONS = ["images obey the quantifier's filters (ridges longer than 8 px, junction angles above 25 degrees) - candidates that do not are skipped when the alphabet is built",
                "parsed cells are matched to regions through the pixel under their centroid (regions are convex)",
                "for the shipped skeleton only the invariance part applies (no ground truth)"]
-REQUIRED_TAGS = {"all": ["truth_checked", "mirror_y", "padded", "landscape", "portrait", "symmetry"]}
+REQUIRED_TAGS = {"all": ["truth_checked", "mirror_y", "padded", "landscape", "portrait", "symmetry", "shipped"]}
 
+SHIPPED = [REPO + "/tests/data/experimental/exp_1.tif", REPO + "/examples/data/in_vivo/t_1.tif", REPO + "/examples/data/in_vivo/t_3.tif",
+           REPO + "/tests/data/test_nonzero.tif", REPO + "/examples/data/in_vivo/t_0.tif", REPO + "/examples/data/in_vivo/t_2.tif", REPO + "/examples/data/in_vivo/t_4.tif"]
 SYMS = ["id", "flipud", "fliplr", "T", "rot90", "rot180", "rot270", "antiT"]
 PADS = [[0, 0], [3, 3], [5, 11]]
 
@@ -103,7 +105,8 @@ def parse(img, mirror_y, ne):
     Image.fromarray(full).convert("RGB").save(path)
     try:
         with fsutil.quiet():
-            sk = fs.skeleton.Skeleton(path, mirror_y=mirror_y)
+            # mirror_y=False is the default: left out for odd ne, spelled out for even ne (both must parse to the same truth)
+            sk = fs.skeleton.Skeleton(path) if (not mirror_y and ne % 2) else fs.skeleton.Skeleton(path, mirror_y=mirror_y)
             v, e, c = sk.create_lattice()
             n0 = len(c)
             border = {cid for cid, cc in c.items() if cc.is_border}
@@ -141,8 +144,9 @@ def parse(img, mirror_y, ne):
 class Images(ProductSystem):
     chunk = 2
 
-    def __init__(self, specs, bound, nes, shipped=()):
-        self.name = "skeleton-images"
+    def __init__(self, specs, bound, nes, shipped=(), pads=None, name="skeleton-images"):
+        self.name = name
+        self.pads = pads or PADS
         self.specs = specs
         self.bound = bound
         self.nes = nes
@@ -155,7 +159,7 @@ class Images(ProductSystem):
         return list(range(len(self.specs))) + ["shipped:%d" % i for i in range(len(self.shipped))]
 
     def axes(self, base):
-        return {"sym": SYMS, "mirror": [False, True], "pad": PADS, "ne": self.nes}
+        return {"sym": SYMS, "mirror": [False, True], "pad": self.pads, "ne": self.nes}
 
     def full_product_axes(self):
         return ("sym", "mirror")
@@ -163,6 +167,7 @@ class Images(ProductSystem):
     def eval_config(self, base, cfg):
         tags, viol = [], []
         if isinstance(base, str):
+            tags.append("shipped")
             from PIL import Image
             with Image.open(self.shipped[int(base.split(":")[1])]).convert("L") as im:
                 arr = (np.array(im) > 127).astype(np.uint8)[2:-2, 2:-2]
@@ -230,6 +235,8 @@ class Images(ProductSystem):
 def build(tier, seed):
     if tier == "quick":
         specs = [[5, 5, 15, 0, 40], [8, 3, 15, 1, 36], [3, 8, 15, 2, 44], [5, 4, 20, seed + 3, 50], [5, 4, 30, 0, 36, True]]
-        return [Images(specs, 3, [6, 3, 4, 5, 7, 8, 9])]
+        return [Images(specs, 3, [6, 3, 4, 5, 7, 8, 9]),
+                Images([], 2, [6, 7], shipped=SHIPPED[:3], pads=PADS[:2], name="shipped-skeletons")]
     specs = [[5, 5, 15, 0, 40], [8, 3, 15, 1, 36], [3, 8, 15, 2, 44], [5, 4, 20, seed + 3, 50], [6, 6, 10, 4, 60], [9, 4, 20, 5, 38], [4, 4, 25, 6, 90], [7, 7, 15, 7, 35]]
-    return [Images(specs, 3, [6, 3, 4, 5, 7, 8, 9], shipped=[REPO + "/tests/data/test_nonzero.tif"])]
+    return [Images(specs, 3, [6, 3, 4, 5, 7, 8, 9]),
+            Images([], 3, [6, 3, 4, 7, 9], shipped=SHIPPED, name="shipped-skeletons")]
